@@ -553,9 +553,15 @@ def run_session(ctx, si, rng):
             observers = ('terminals', 'numbering', 'analysis', 'extract',
                          'transitions', 'navigation', 'labels', 'bracketstry',
                          'bracketstry')
-            for pre in ('export', 'tigerxml', observers[zlib.crc32(
-                    repr(sorted(op.items(), key=str)).encode('utf-8'))
-                    % len(observers)]):
+            pres = ['export', 'tigerxml', observers[zlib.crc32(
+                repr(sorted(op.items(), key=str)).encode('utf-8'))
+                % len(observers)]]
+            if op['names'][-1:] == ['raising'] and 'bracketstry' not in pres:
+                # trees that are discontinuous when read and continuous when
+                # written: an earlier attempt to write them in bracket format
+                # was refused, and leaves no trace
+                pres.append('bracketstry')
+            for pre in pres:
                 written = norm(c18_ops.execute(
                     R, dict(copy.deepcopy(op), b=None, prewrite=pre), tmp,
                     set()))
